@@ -155,7 +155,7 @@ use std::collections::BTreeMap;
 
 fn profile() -> Profile {
     Profile { min_axes: 0, max_axes: 2, max_glyphs: 12, min_glyphs: 2, outlines: true, cubic: true, components: 4, transforms: true, mixed: true, sparse: 2,
-        order_variety: true, non_export: true, metrics_class_a: true, vertical: true, half_coords: true, maps: true, awkward_axes: false, multi_codepoints: true, ps_names: false, anchors: true, kerning: true, instances: true, flat_maps: false, point_axis: true, weird_names: true, ..Profile::base() }
+        order_variety: true, non_export: true, metrics_class_a: true, vertical: true, half_coords: true, maps: true, awkward_axes: false, multi_codepoints: true, ps_names: false, anchors: true, kerning: true, instances: true, flat_maps: false, point_axis: true, weird_names: true, os2_ranges: true, ..Profile::base() }
 }
 
 fn ser<T: Persistable>(v: &T) -> Vec<u8> { let mut b = Vec::new(); v.write(&mut b); b }
